@@ -85,13 +85,17 @@ def run_fit(job):
     import pandas as pd
     import fairlearn.reductions as red
     from fairlearn.utils import _verif_trace
+    costs = None
+    if len(conf) == 9:            # extension: cost-sensitive objective
+        costs = conf[8]
+        conf = conf[:8]
     kind, rq, eps_b, max_iter, run_lp, eta0, nu, which = conf
     res = {"c08": [], "c10": [], "trace": None, "info": {}, "conf": conf}
     if not _verif_trace._ON:
         raise MachineryError("hooks are not enabled (FAIRLEARN_VERIF_TRACE)")
     d = M.materialise(case, seed, which)
     n, F = d["n"], case["F"]
-    tab = RC.Table(case, kind, rq)
+    tab = RC.Table(case, kind, rq, costs)
     ratio = case["ratios"][rq]
     r1 = ratio[0] == ratio[1]
     sig0 = {"moment": kind, "run_lp": bool(run_lp)}
@@ -100,7 +104,7 @@ def run_fit(job):
     try:
         del _verif_trace.events[:]
         eg = red.ExponentiatedGradient(RC.ExactLearner(), M.make_moment(kind, ratio), eps=eps_b, max_iter=max_iter, nu=nu, eta0=eta0,
-                                       run_linprog_step=bool(run_lp))
+                                       run_linprog_step=bool(run_lp), objective=None if costs is None else red.ErrorRate(costs={"fp": costs[0], "fn": costs[1]}))
         eg.fit(d["X"], np.array(d["y"]), sensitive_features=d["g"])
         events = list(_verif_trace.events)
     except Exception as e:
